@@ -112,7 +112,7 @@ theorem cacheHit_g {e : BExp} {q : Nat} {dest : Option Nat} {a : Nat} {s s' : CS
       (by intro c hc; have : c = p.2 := by simpa using hc
           rw [this]; exact fun hh => c1 ((hav1 _).mp hh))
       hdp1.av0 hdp1.nav (Or.inl hdp1.unread) hdp1.nn
-    have gi2' : GI Kn ρ σ0 s0 s' := gi2.close (by rw [ha2.expq]; exact hdp1.nc)
+    have gi2' : GI Kn ρ σ0 s0 s' := gi2.close (by rw [ha2.expq]; exact hdp1.nc) (fun _ => TgtL.of_gate hgw hL)
     have fr2 := gate_fr (Kn := Kn) (σ0 := σ0) ha2 rfl hgw hL
     refine ⟨gi2', (fr1.trans fr2).mono ?_ ?_ ?_, fun hn => (by cases hn), fun d' hd' => ?_⟩
     · rintro x _ (hh | hh)
@@ -226,7 +226,7 @@ theorem addQubit_gi {name : String} {a : Nat} {s s' : CState}
   · intro m hm
     rw [hmk] at hm
     obtain ⟨m1, m2, m3, m4⟩ := gi.marks m hm
-    exact ⟨by rw [hanc]; exact m1, by rw [hkp]; exact m2, fun h' => m3 (hav _ h'), htk _ m4⟩
+    exact ⟨by rw [hanc]; exact m1, by rw [hkp]; exact m2, fun h' => m3 (hav _ h'), fun hn => htk _ (m4 hn)⟩
   · intro x hx _
     refine ⟨fun h' => hx.nav (hav x h'), hx.av0, fun n hk hq => ?_, by rw [hex]; exact hx.nc,
       by unfold Unread; rw [hL]; exact hx.unread, by rw [hmk]; exact hx.nm⟩
@@ -331,7 +331,7 @@ theorem exprG_tt (hT : Kn "TRUE") : ExprG Kn ρ σ0 s0 .tt := by
     obtain ⟨u2, s5, hx, hl⟩ := run_bind_ok.mp h3
     obtain ⟨gi5, ha5, g, hgw, hL⟩ := gate_gi (cs := []) (t := q) hx gi2 rfl rfl (fun _ hc => by cases hc)
       hpr.av0 hpr.nav (Or.inl hpr.unread) hpr.nn
-    have gi5' := gi5.close (by rw [ha5.expq]; exact hpr.nc)
+    have gi5' := gi5.close (by rw [ha5.expq]; exact hpr.nc) (fun _ => TgtL.of_gate hgw hL)
     have fr5 := gate_fr (Kn := fun n => Kn n ∧ n ≠ "TRUE") (σ0 := σ0) ha5 rfl hgw hL
     obtain ⟨es5, hq5, _⟩ := lookup_ok hl gi5'.good
     subst es5
